@@ -175,7 +175,7 @@ func ippLit(data []byte, incoming bool, o ippObs) string {
 }
 
 func runIpParse(c *hx.Ctx) {
-	cw := c.NewCaseWriter("From NV Require Import corr.IpParse_corr.", "IpParse_corr.case", "IpParse_corr.check_case", 1000)
+	cw := c.NewCaseWriter("From NV Require Import corr.IpParse_corr.", "IpParse_corr.case", "IpParse_corr.check_case", 500)
 	okCount := 0
 	add := func(data []byte, incoming bool, kind string) {
 		o := ippObserve(data, incoming)
@@ -247,6 +247,12 @@ func runIpParse(c *hx.Ctx) {
 		return append(h, payload...)
 	}
 
+	// ---- corpus: the witness of known finding F18 (non-first fragment whose fragment header names header 60) ----
+	{
+		w := append(ippV6Fixed(44, 16, ippSrc6, ippDst6), ippExt(44, 60, 0, 3, 1, 0)...)
+		add(append(w, 128, 0, 0, 0, 10, 11, 12, 13), true, "corpus-F18")
+	}
+
 	// ---- boundary sweeps (first) ----
 	truncSweep(v4(5, 6, 0x4000, tcp(1234, 80, 0x02)), "v4-trunc")
 	truncSweep(v4(8, 6, 0, tcp(1234, 80, 0x10)), "v4-trunc")
@@ -257,11 +263,8 @@ func runIpParse(c *hx.Ctx) {
 	truncSweep(v4(5, 17, 0x2001, []byte{1, 2, 3, 4, 5}), "v4-trunc") // middle fragment
 	truncSweep(v4(7, 6, 0x00b9, []byte{}), "v4-trunc")             // last fragment, no payload
 	for ihl := 0; ihl < 16; ihl++ { // every IHL value, with and without the bytes to back it
-		p := v4(ihl, 17, 0, udp(7, 9))
-		if len(p) < 20 {
-			p = append(p, make([]byte, 28)...)
-			p[0] = 0x40 | byte(ihl)
-		}
+		p := v4(max(ihl, 5), 17, 0, udp(7, 9))
+		p[0] = 0x40 | byte(ihl)
 		add(p, true, "v4-ihl")
 		add(p[:min(len(p), 24)], false, "v4-ihl")
 	}
